@@ -98,8 +98,8 @@ CLAIMED = {
   "DESIGN.md §3 C07"),
  "C08": ("exploration",
   "TLA+ spec FmtLayout.tla (files = sequences of declaration kinds x layout record x comment slots; protocol parse -> format -> parse -> format) enumerated by TLC; every state rendered as text and run through parser, format.Source (and a sample through `cue fmt`), with a position-free syntax tree dump compared before and after",
-  "Model-driven exploration: FmtLayout.tla enumerates every sequence of <= 2 of 28 declaration kinds (fields, nested structs, field chains, lists, embeddings, let, attributes, for/if comprehensions, calls on one and several lines, optional/required fields, definitions, multi-line strings and bytes with and without interpolation, operator chains, pattern constraints, list comprehensions, aliases, ellipses, dynamic fields, unary operators, multi-line disjunctions) under a seeded sample of 6 (thorough 48) of 972 layouts (member separator, spaces after colons and around operators, redundant parentheses, blank lines, trailing commas, indentation) with comments in up to two of eight slots (doc, end of line, after an opening brace, before a closing bracket, between members, after a colon, after a list element, after an operator). Each file must parse; format.Source must succeed; the output must parse to the same position-free tree (node kinds, literal text with multi-line string indentation normalised, operators, attributes, every comment group with its doc/line flags and attachment position); formatting again must be byte-identical; format.Simplify output must parse and be idempotent; a sample goes through the cue binary (`cue fmt --files`, then `cue fmt --check`). One genuine defect found this way was repaired (fix: commit 5c6c9ae), one is recorded as known finding; a failing state is shrunk to (kind, comment slots) to name its class.",
-  "trusted: TLC (enumeration), the renderer from states to text (files that do not parse are counted and fail the run above 20%), the tree dump; canary: a file with a moved comment must dump differently. The repository's own .cue corpus and token-level mutations of it are not part of the model-generated space (DESIGN.md §7); -s is only checked for parseability and idempotence.",
+  "Model-driven exploration: FmtLayout.tla enumerates every sequence of <= 2 of 28 declaration kinds (fields, nested structs, field chains, lists, embeddings, let, attributes, for/if comprehensions, calls on one and several lines, optional/required fields, definitions, multi-line strings and bytes with and without interpolation, operator chains, pattern constraints, list comprehensions, aliases, ellipses, dynamic fields, unary operators, multi-line disjunctions) under a seeded sample of 6 (thorough 48) of 1944 layouts (member separator, spaces after colons and around operators, redundant parentheses, blank lines, trailing commas, indentation, closing bracket hugging the last element) with comments in up to two of eight slots (doc, end of line, after an opening brace, before a closing bracket, between members, after a colon, after a list element, after an operator). Each file must parse; format.Source must succeed; the output must parse to the same position-free tree (node kinds, literal text with multi-line string indentation normalised, operators, attributes, every comment group with its doc/line flags and attachment position); formatting again must be byte-identical; format.Simplify output must parse and be idempotent; a sample goes through the cue binary (`cue fmt --files`, then `cue fmt --check`). A second input family (FmtLayout.CorpusInit) takes the repository's own ~4000 parseable CUE sources (files and txtar sections) unchanged and with one whitespace / comment / comma / parenthesis mutation at a token boundary (8 k sampled mutants, thorough 200 k); unchanged sources are keyed by file name, mutants only by kind of failure (a known family of comment-placement defects of the new formatter). Five genuine defects found this way were repaired (fix: 5c6c9ae, 78b236a, 977d9cf, 3a178d9, 7fa13d5), the rest is recorded as known findings; a failing model state is shrunk to (kind, comment slots) to name its class.",
+  "trusted: TLC (enumeration), the renderer from states to text (files that do not parse are counted and fail the run above 20%), the tree dump; canary: a file with a moved comment must dump differently. Corpus mutants cannot flag a new member of the known defect family (their class is the kind of failure only); the Line flag of comments and the quoting of string labels are treated as layout; -s is only checked for parseability and idempotence.",
   "DESIGN.md §3 C08"),
  "C02": ("exploration",
   "TLA+ spec Pipeline.tla (the pipeline parse -> compile -> validate -> concrete -> export CUE/JSON/YAML as a state machine with ok/err outcomes only, stage-consistency rules, three runs that must agree; plus the input spaces: programs over a pool of erroneous / cyclic expressions, byte-level mutants, token soups) model-checked by TLC (TypeOK, Repeatable, ParseErrorEnds, ErrorValueNotExported, Terminates); every input run three times in isolated worker processes and the recorded traces validated by TLC against PipelineTrace.tla",
